@@ -179,6 +179,9 @@ func main() {
 	}
 	// the interpreter allocates heavily (boxed values); memory is plentiful, GC time is not
 	debug.SetGCPercent(800)
+	// soft limit: with 16 workers and a lazy collector a large exploration reached the machine's
+	// 62 GiB and was killed; past 40 GiB the collector works harder instead
+	debug.SetMemoryLimit(40 << 30)
 	switch os.Args[1] {
 	case "check":
 		os.Exit(cmdCheck(os.Args[2:]))
